@@ -234,6 +234,23 @@ pub fn run(rng: &mut Rng, n: usize, sink: &mut Sink) {
                     if a.cmp(b) != s.cmp(t2) || a.partial_cmp(b) != s.partial_cmp(t2) || (a < b) != (s < t2) || (a >= b) != (s >= t2) {
                         bad("cmp");
                     }
+                    // every provided method of the comparison traits (an impl may override any of them)
+                    if (a <= b) != (s <= t2) || (a > b) != (s > t2) || a.lt(b) != s.lt(t2) || a.le(b) != s.le(t2) || a.gt(b) != s.gt(t2) || a.ge(b) != s.ge(t2)
+                        || a.ne(b) != s.ne(t2) || a.eq(b) != s.eq(t2)
+                        || a.clone().max(b.clone()).as_str() != s.max(t2) || a.clone().min(b.clone()).as_str() != s.min(t2)
+                        || a.clone().clamp(b.clone().min(a.clone()), b.clone().max(a.clone())).as_str() != s
+                    {
+                        bad("lt/le/gt/ge/ne/max/min/clamp");
+                    }
+                    {
+                        // `Hash::hash_slice` and hashing inside tuples / slices / Option
+                        let (mut h1, mut h2) = (std::collections::hash_map::DefaultHasher::new(), std::collections::hash_map::DefaultHasher::new());
+                        Hash::hash_slice(&[a.clone(), b.clone()], &mut h1);
+                        Hash::hash_slice(&[s, t2], &mut h2);
+                        if h1.finish() != h2.finish() || hash_of(&(a, 7u8, Some(b))) != hash_of(&(s, 7u8, Some(t2))) || hash_of(&[a, b][..]) != hash_of(&[s, t2][..]) {
+                            bad("hash_slice / hashing inside tuples and slices");
+                        }
+                    }
                     if (*a == *t2) != (s == t2) || (*t2 == **a) != (s == t2) || (*a == t2.to_string()) != (s == t2) || (Cow::Borrowed(t2) == *a) != (s == t2) {
                         bad("mixed ==");
                     }
